@@ -35,8 +35,33 @@ func (c12) Describe() CheckInfo {
 		},
 		RealCode:       []string{"gopatch main()/mainCmd.Run, preview/printComments, patch.Parse/File.Apply, pkg/diff, x/tools/imports, internal/*"},
 		Stubs:          []string{"package os (simulated filesystem, streams, exit)", "path/filepath walk", "io/ioutil"},
-		RequiredProbes: []string{"agree-inplace-vs-print", "agree-diff-applied", "agree-api", "agree-verbose", "agree-refused-file", "description-on-stderr", "multi-file-print", "dry-fault-fired", "dry-kill", "dry-stdout-fail", "noncanonical-matched-file", "large-file", "agree-respelled-duplicate-arg", "agree-api-result-held", "agree-hard-linked-targets", "agree-name-near-name-max", "agree-diff-applied-crlf", "agree-diff-applied-no-final-newline"},
+		RequiredProbes: []string{"agree-inplace-vs-print", "agree-diff-applied", "agree-api", "agree-verbose", "agree-refused-file", "description-on-stderr", "multi-file-print", "dry-fault-fired", "dry-kill", "dry-stdout-fail", "noncanonical-matched-file", "large-file", "agree-respelled-duplicate-arg", "agree-api-result-held", "agree-hard-linked-targets", "agree-name-near-name-max", "agree-diff-applied-crlf", "agree-diff-applied-no-final-newline", "agree-diff-shape-table", "agree-described-change-fails-to-replace"},
 	}
+}
+
+// hand-written (patch, file) pairs around the edges of what a unified diff has to
+// express: insertions that repeat their neighbours, changes in the first and
+// last line, deletions down to almost nothing, distant and adjacent hunks
+var c12Shapes = []struct{ name, patch, src string }{
+	{"insert-block-equal-to-previous-at-end", "@@\n@@\n-vfTail()\n+if ok {\n+\tlog()\n+}\n", "package a\n\nfunc f() {\n\tif ok {\n\t\tlog()\n\t}\n\tvfTail()\n}\n"},
+	{"duplicate-last-statement", "@@\nvar x expression\n@@\n-vfDup(x)\n+keep(x)\n+keep(x)\n", "package a\n\nfunc f() {\n\tsetup()\n\tkeep(1)\n\tvfDup(1)\n}\n"},
+	{"duplicate-two-line-tail", "@@\n@@\n-vfTail()\n+a()\n+b()\n", "package a\n\nfunc f() {\n\tx()\n\ta()\n\tb()\n\tvfTail()\n}\n"},
+	{"insert-equal-to-next-at-start", "@@\n@@\n-vfHead()\n+a()\n+b()\n", "package a\n\nfunc f() {\n\tvfHead()\n\ta()\n\tb()\n\tx()\n}\n"},
+	{"pure-insertion-duplicating-last-statement", "@@\n@@\n vfKeep(1)\n+vfKeep(1)\n", "package a\n\nfunc f() {\n\tsetup()\n\tvfKeep(1)\n}\n"},
+	{"pure-insertion-of-block-after-equal-block", "@@\n@@\n if vfCond {\n   ...\n }\n+if vfCond {\n+\tlog()\n+}\n", "package a\n\nfunc f() {\n\tsetup()\n\tif vfCond {\n\t\tlog()\n\t}\n}\n"},
+	{"pure-insertion-two-line-repeat", "@@\n@@\n vfA()\n vfB()\n+vfA()\n+vfB()\n", "package a\n\nfunc f() {\n\tvfA()\n\tvfB()\n}\n"},
+	{"pure-insertion-before-equal-lines", "@@\n@@\n+vfA()\n vfA()\n", "package a\n\nfunc f() {\n\tvfA()\n\ttail()\n}\n"},
+	{"delete-first-statement", "@@\n@@\n-vfHead()\n", "package a\n\nfunc f() {\n\tvfHead()\n\ta()\n}\n"},
+	{"delete-only-statement", "@@\n@@\n-vfOnly()\n", "package a\n\nfunc f() {\n\tvfOnly()\n}\n"},
+	{"change-last-line-of-file", "@@\n@@\n-var vfLast = 1\n+var vfLast = 2\n", "package a\n\nvar first = 0\n\nvar vfLast = 1\n"},
+	{"change-first-declaration", "@@\n@@\n-var vfFirst = 1\n+var vfFirst = 2\n", "package a\n\nvar vfFirst = 1\n\nvar last = 0\n"},
+	{"two-distant-hunks", "@@\n@@\n-vfFar()\n+near()\n", "package a\n\nfunc f() {\n\tvfFar()\n}\n\nfunc g1() {}\nfunc g2() {}\nfunc g3() {}\nfunc g4() {}\nfunc g5() {}\nfunc g6() {}\nfunc g7() {}\nfunc g8() {}\n\nfunc h() {\n\tvfFar()\n}\n"},
+	{"adjacent-changes", "@@\n@@\n-vfAdj()\n+adj(1)\n", "package a\n\nfunc f() {\n\tvfAdj()\n\tvfAdj()\n\tvfAdj()\n}\n"},
+	{"grow-one-line-into-many", "@@\n@@\n-vfGrow()\n+a()\n+b()\n+c()\n+d()\n+e()\n+f()\n+g()\n+h()\n", "package a\n\nfunc f() {\n\tvfGrow()\n}\n"},
+	{"shrink-many-lines-into-one", "@@\n@@\n-vfShrink(...)\n+one()\n", "package a\n\nfunc f() {\n\tvfShrink(1,\n\t\t2,\n\t\t3,\n\t\t4,\n\t\t5,\n\t\t6)\n}\n"},
+	{"everything-changes", "@@\n@@\n-vfAll\n+allNew\n", "package vfAll\n\nvar vfAll = vfAll + vfAll\n"},
+	{"repeated-identical-lines-around", "@@\n@@\n-vfMid()\n+same()\n", "package a\n\nfunc f() {\n\tsame()\n\tsame()\n\tvfMid()\n\tsame()\n\tsame()\n}\n"},
+	{"blank-lines-around", "@@\n@@\n-vfBlank()\n+filled()\n", "package a\n\nfunc f() {\n\n\n\tvfBlank()\n\n\n}\n"},
 }
 
 func (c12) Gen(env *Env, seed uint64, tier string, i int) *Case {
@@ -46,6 +71,30 @@ func (c12) Gen(env *Env, seed uint64, tier string, i int) *Case {
 		sub = "dry"
 	}
 	c := NewCLICase("C12", sub, i, seed)
+	if i%11 == 7 && sub == "agree" {
+		sh := c12Shapes[(i/11)%len(c12Shapes)]
+		c.AddPatch("p0.patch", r.Pick([]string{"p", "stdin", "P"}), []byte(sh.patch), nil, nil)
+		src := sh.src
+		if r.Chance(1, 4) {
+			src = strings.ReplaceAll(src, "\n", "\r\n")
+		}
+		c.AddFile("shape.go", []byte(src), "match", nil, sh.name)
+		if r.Chance(1, 3) {
+			c.AddFile("zz_other.go", NonMatchingFile(r, "canonical", ""), "nomatch", nil, "canonical")
+		}
+		c.Flags = Flags{SkipImport: r.Chance(1, 3)}
+		c.Targets = []string{"."}
+		if r.Chance(1, 2) {
+			c.Targets = nil
+			for _, f := range c.Files {
+				c.Targets = append(c.Targets, strings.TrimPrefix(f.Path, ProjDir+"/"))
+			}
+		}
+		c.Extra["shape"] = sh.name
+		c.Extra["rng"] = fmt.Sprint(r.Uint64())
+		c.RebuildArgs()
+		return c
+	}
 	pp := GenPatchPlan(r, 2, Templates)
 	pp.Install(c, r)
 	all := pp.All()
@@ -115,6 +164,20 @@ func (c12) Gen(env *Env, seed uint64, tier string, i int) *Case {
 		c.AddPatch("misfit.patch", c.Patches[0].Via, []byte(m.Patch(47)), nil, nil)
 		c.AddFile(r.Pick([]string{"a_mis.go", "mm_mis.go", "zz_mis.go"}), GenValidGoFile(r, GoFileOpts{Funcs: 1, Stmts: []string{m.Stmt(47)}}), "misfit", nil, m.Name)
 	}
+	if sub == "agree" && r.Chance(1, 6) {
+		// a DESCRIBED change that matches a file but whose replacement cannot be
+		// built for it: the change did not apply, so its description is not due
+		for i := range c.Patches {
+			if c.Patches[i].Via == "stdin" {
+				c.Patches[i].Via = "p"
+				c.Patches[i].Path = PatDir + "/p0.patch"
+				c.SetNode(world.NodeSpec{Path: c.Patches[i].Path, Kind: "file", Data: c.Patches[i].Data})
+			}
+		}
+		c.AddPatch("ill.patch", c.Patches[0].Via, []byte("# VFMARK-99-ill\n@@\nvar f expression\n@@\n-f(vfIll)\n+f.f(vfIll)\n"), []string{"VFMARK-99-ill"}, nil)
+		c.AddFile(r.Pick([]string{"a_rewr.go", "mm_rewr.go", "zz_rewr.go"}), []byte("package sample\n\nfunc rewr() {\n\tc.conn.Close(vfIll)\n}\n"), "rewrite-error", nil, "")
+		c.Extra["described_rewrite_error"] = "1"
+	}
 	if sub == "dry" {
 		switch r.Intn(3) {
 		case 0:
@@ -179,6 +242,9 @@ func c12Agree(env *Env, c *Case) (vs []Violation) {
 	if c.Extra["long_name"] == "1" {
 		env.Probe("agree-name-near-name-max")
 	}
+	if c.Extra["shape"] != "" {
+		env.Probe("agree-diff-shape-table")
+	}
 	add := func(oracle, sig, detail string) {
 		vs = append(vs, Violation{Oracle: oracle, Signature: "C12/" + oracle + "/" + sig, Detail: detail})
 	}
@@ -222,13 +288,20 @@ func c12Agree(env *Env, c *Case) (vs []Violation) {
 
 	// print-only == concatenation, in path order, of what in-place mode wrote
 	var want bytes.Buffer
+	restP := rp.Stdout
 	for _, f := range sorted {
 		if !failed[f.Path] {
 			want.Write(final[f.Path].Data)
+		} else if o := orig[f.Path].Data; len(o) > 0 && bytes.HasPrefix(restP[min(want.Len(), len(restP)):], o) {
+			// a refused file echoed unchanged: that is what in-place mode leaves on disk
+			want.Write(o)
 		}
 		if f.Role == "match" && f.Note != "canonical" {
 			env.Probe("noncanonical-matched-file")
 		}
+	}
+	if c.Extra["described_rewrite_error"] == "1" {
+		env.Probe("agree-described-change-fails-to-replace")
 	}
 	env.Probe("agree-inplace-vs-print")
 	if len(sorted) > 1 {
@@ -372,6 +445,8 @@ func c12Agree(env *Env, c *Case) (vs []Violation) {
 		seg := ""
 		if !failed[f.Path] {
 			seg = string(final[f.Path].Data)
+		} else if o := string(orig[f.Path].Data); o != "" && strings.HasPrefix(stripLogs(vrest), o) {
+			seg = o
 		}
 		// log lines may precede the segment, but a segment that itself starts with
 		// something that looks like a log line is taken first
